@@ -78,7 +78,9 @@ def executed(case, mode, interp):
     have = collections.Counter()
     for w in case['wgs']:
         for f in w['wfs']:
-            wgid = [f[mode + '_s'][slots[d]] if slots[d] is not None else None for d in range(3)]
+            # a register the initialiser did not write holds 0 in a fresh register file (most lenient reading)
+            wgid = [(0 if f[mode + '_s'][slots[d]] == UNWRITTEN else f[mode + '_s'][slots[d]])
+                    if slots[d] is not None else None for d in range(3)]
             for lane in range(64):
                 if (f['exec'] >> lane) & 1:
                     ids = lane_ids(f[mode], lane, interp, vgpr)
